@@ -328,6 +328,17 @@ func (s *scene) forge(a act, rng *rand.Rand, off int) (data []byte, from *world.
 		if a.Op == "spliceorigin" {
 			src = s.fc
 		}
+		if a.Op == "splicetime" && a.Seen {
+			// the victim has verified the record for the EARLIER announcement: it is moved into the newer one of the
+			// same origin (anything the victim remembers about records it has checked must be tied to the announcement)
+			older := chain[a.Depth-1].raw
+			chainB := decodeChain(s.fb[layout(s.fb).apxFrom:])
+			cur := older
+			for i := a.Depth - 1; i >= 2; i-- {
+				cur = reencode(chainB[i-1], cur, nil)
+			}
+			return withAppendix(s.fb, s.ownRecord(s.fb, cur, rng)), from, "record of the earlier announcement (processed before) inside the newer one"
+		}
 		other := decodeChain(src[layout(src).apxFrom:])
 		return withAppendix(fa, s.ownRecord(fa, under(a.Depth, other[a.Depth-1].raw), rng)), from, ""
 	case "reattribute":
@@ -409,8 +420,14 @@ func runCase(c *vf.Ctx, L int, a act, rng *rand.Rand, off int) (result, string, 
 		if L > 0 {
 			gfrom = s.r1
 		}
-		_, _ = s.ms.W.DeliverRaw(gfrom, s.v, s.fa)
-		note += " (after the genuine announcement was processed)"
+		if a.Op == "spliceorigin" {
+			// the announcement the record is taken FROM has been processed (and its records verified) by the victim
+			_, _ = s.ms.W.DeliverRaw(gfrom, s.v, s.fc)
+			note += " (after the other origin's genuine announcement, which carries the record, was processed)"
+		} else {
+			_, _ = s.ms.W.DeliverRaw(gfrom, s.v, s.fa)
+			note += " (after the genuine announcement was processed)"
+		}
 	}
 	before := tableOf(s.v)
 	s.ms.W.Inflight = nil
